@@ -236,13 +236,15 @@ def _stages(run, s, tier):
             dd = os.path.join(s, "c14_fit_%s_%d_%d" % (name, n, P))
             os.makedirs(dd)
             data.gauss_file(os.path.join(dd, "d.txt"), lambda x: 1.5 * x * x + 0.7, n=25, sigma=0.2)
-            for mode, pol in (("free", None),) if P == 1 else (("free", None), ("sched", coord.Policy("highfirst"))):
-                if mode == "sched" and P > 5:
+            # serialised schedules: the highest rank always first / rank 0 always first (rank 0 then reaches its concatenation steps as early as the
+            # collectives allow, the others write as late as they allow)
+            for mode, pol in (("free", None),) if P == 1 else (("free", None), ("sched", coord.Policy("highfirst")), ("sched", coord.Policy("lowfirst"))):
+                if mode == "sched" and (P > 5 or (pol.kind == "lowfirst" and P > 3)):
                     continue
                 shutil.rmtree(os.path.join(dd, "fitting"), ignore_errors=True)
                 res = coord.run_ranks(P, "harness.targets:fit_stages_det", ("gauss", "d.txt", "r", dd, name, n, ["fit", "fisher", "match", "combine"], FIT_OPTS),
                                       s, mode=mode, policy=pol, timeout=1500)
-                key = "stages:%s:n%d:P%d:%s" % (name, n, P, mode)
+                key = "stages:%s:n%d:P%d:%s" % (name, n, P, mode if pol is None else pol.kind)
                 if res["status"] != "ok":
                     bad = [r for r, c in res["exit"].items() if c not in (0, 86)]
                     run.violation(key, "fitting stages on %d ranks (%s, %d functions, %d uniques) did not complete: %s %s\n%s" % (
